@@ -13,6 +13,7 @@ R17.6 error sources intact  : every operation that grows the stack sits behind t
 R17.5 errors are located    : in opcode implementations, the stack handle and the VM loop, the argument of `.locate(..)` derives
       from the current instruction pointer.
 """
+import re
 from .. import facts as F
 from .. import terms as T
 from ..vmmodel import ERRORS_ADT, EXEC_ERR, JUMP_KINDS, PERMISSIVE, CONFIG, KindFlagEval, VMModel
@@ -47,6 +48,112 @@ def kinds_from_binding(root, lid):
                             kinds |= {v for _, v in pv}
                     return kinds
     return None
+
+
+def check_pipeline_complete(fx, rep, cg, rule="R17.7"):
+    """The one-call entry points answer only what the staged pipeline answers: every exit of `Extractor::analyze` that is not an
+    error has passed through every stage of the extractor (each by-value transition from one state type to the next), and every
+    such exit of `TypeChecker::run` through every polled stage of the engine. A shortcut around a stage returns a layout for
+    code whose execution (or inference) would have failed - the error raised on a path is then never listed - and is never
+    polled."""
+    def stages_of_extractor():
+        out = {}
+        for b in fx.fn_bodies():
+            imp = b.get("impl_self") or ""
+            sig = fx.fns.get(b["def"], {})
+            ins = sig.get("inputs") or []
+            outp = sig.get("output") or ""
+            if not imp.startswith("extractor::Extractor<extractor::state::") or not ins or ins[0] != imp:
+                continue
+            m = re.search(r"extractor::Extractor<(extractor::state::\w+)>", outp)
+            if m and m.group(1) not in imp:
+                out[F.strip_generics(b["def"])] = b
+        return out
+
+    def stages_of_engine():
+        out = {}
+        polled = set()
+        for b in fx.fn_bodies():
+            if b.get("impl_self") != "tc::TypeChecker" or not b.get("hir"):
+                continue
+            inl = F.inline_module_helpers(fx, b, max_nodes=400, methods=True)
+            if any((F.callee_def(c) or "").endswith("Watchdog::should_stop") for c, _ in F.calls(inl["hir"]["value"])):
+                polled.add(b["def"])
+        for d in polled:
+            b = fx.body(d)
+            sig = fx.fns.get(d, {})
+            if sig.get("vis") == "Public" and (sig.get("inputs") or [""])[0].startswith("&mut ") and "Result" in (sig.get("output") or ""):
+                out[F.strip_generics(d)] = b
+        return out
+
+    def exits(root):
+        leaves = {id(x) for x in T.result_leaves(root)}
+        out = []
+        for n, ps in F.walk(root):
+            if any(a.get("k") == "Closure" for a, _ in ps):
+                continue
+            if any(a.get("k") == "Match" and "TryDesugar" in str(a.get("source", "")) and key != "scrut" for a, key in ps[-6:]):
+                continue
+            if n.get("k") == "Ret" and n.get("e") is not None:
+                out.append((n["e"], ps))
+            elif id(n) in leaves and not any(a.get("k") == "Ret" for a, _ in ps):
+                out.append((n, ps))
+        return out
+
+    def plain_calls(node):
+        for c, cps in F.calls(node):
+            if any(a.get("k") in ("Closure", "Loop") or (a.get("k") in ("If", "Match") and "Desugar" not in str(a.get("source", "")) and key not in ("cond", "scrut")) for a, key in cps):
+                continue
+            yield c
+
+    def called(c):
+        ds = set(cg.resolve_local(c))
+        if c.get("def"):
+            ds.add(c["def"])
+        return {F.strip_generics(d) for d in ds}
+
+    n_exit = 0
+    for entry, stages, what in (
+        (next((b for b in fx.fn_bodies() if (b.get("impl_self") or "").startswith("extractor::Extractor<") and b.get("name") == "analyze"), None), stages_of_extractor(), "stages of the extractor (state transitions)"),
+        (fx.body("tc::TypeChecker::run"), stages_of_engine(), "polled stages of the type checker"),
+    ):
+        if not rep.anchor(rule, entry is not None and entry.get("hir"), f"the one-call entry point over the {what}"):
+            continue
+        stages = {k: v for k, v in stages.items() if k != F.strip_generics(entry["def"])}
+        rep.floor(rule, len(stages), 4, what)
+        root = entry["hir"]["value"]
+        rep.fn(entry["def"])
+        for val, ps in exits(root):
+            v = F.strip(val)
+            if v.get("k") == "Call" and (F.path_def(v["f"]) or "").endswith("::Err"):
+                continue
+            n_exit += 1
+            dom = set()
+            for c in plain_calls(val):
+                dom |= called(c)
+            chain = [a for a, _ in ps] + [val]
+            for i, (anc, key) in enumerate(ps):
+                if "stmts" in anc and "k" not in anc:
+                    nxt = chain[i + 1] if i + 1 < len(chain) else None
+                    for s_ in anc["stmts"]:
+                        if s_ is nxt or any(x is val for x, _ in F.walk(s_)):
+                            break
+                        for c in plain_calls(s_):
+                            dom |= called(c)
+                if anc.get("s") == "Let" and key != "init" and "init" in anc:
+                    for c in plain_calls(anc["init"]):
+                        dom |= called(c)
+            missing = sorted(k.split("::")[-1] for k in stages if k not in dom)
+            ordn = n_exit
+            rep.oblige(
+                not missing,
+                rule,
+                f"pipeline-complete:{F.strip_generics(entry['def'])}#{ordn}",
+                F.loc(val.get("span")),
+                f"`{entry['def']}` can return a non-error answer here without having passed through {missing}: for such input the one-call entry point answers although the staged pipeline would execute (and possibly fail, or be stopped) - an execution error on a path is never listed, the watchdog never polled",
+                sample={"rule": rule, "entry": entry["def"], "stages": sorted(k.split("::")[-1] for k in stages), "exit": F.loc(val.get("span"))},
+            )
+    rep.floor(rule, n_exit, 2, "non-error exits of the one-call entry points")
 
 
 def check(fx, rep, tier):
@@ -570,6 +677,7 @@ def check(fx, rep, tier):
     # conversion, an instruction exists there, it is the JUMPDEST type) are C08's R08.1
     core.import_rules(rep, fx, "C08", "R17.3", only_rules=("R08.1",), floor=4, what="validator obligations (C08 R08.1) behind 'every bad jump target is raised as an error'")
 
+    check_pipeline_complete(fx, rep, cg)
     return rep.finish(
         "Case analysis of every place an execution error is recorded in the VM's buffer (kinds reaching it x dependence on the permissive flag), "
         "of the main loop's result (Ok only on the empty-buffer edge), of the Err arm (record + unconditional kill), of every read of the flag, and of "
